@@ -33,7 +33,8 @@ MIN_NONTRIVIAL = {'quick': 1500, 'thorough': 15000}
 REQUIRED = ('showdowns', 'auto_mucks', 'auto_kills', 'twin_runs_compared',
             'winners_checked_shown', 'tournament_partial_show_probes',
             'side_pot_showdowns', 'multi_board_showdowns', 'hilo_showdowns',
-            'allin_showdowns')
+            'allin_showdowns',
+            'observer_query_points')
 
 CUSTOMS = ('holdem8', 'plo8', 'greek', 'courchevel', 'draw5', 'badugi1',
            'stud5', 'razzdraw', 'random')
@@ -219,7 +220,7 @@ class ShowdownMonitor(Monitor):
 
 
 def make_monitors():
-    return [ShowdownMonitor()]
+    return [driver.Observer(), ShowdownMonitor()]
 
 
 def gen_kwargs(rng):
